@@ -39,6 +39,7 @@ ELEMENTS = [
     gen(DICT, cls(STR)), gen(LIST, cls(2), cls(3)), gen(LIST, gen(LIST, cls(2), cls(3))),   # same origin, other number of arguments
     cls(SEQ), gen(SEQ, cls(2)), gen(SEQ, cls(3)), gen(LIST, cls(1)),                          # an origin above list: Sequence[...]; list[object]
     {"k": "metaof", "m": "M1", "cs": [2, 3]},                                                  # the metaclass of A (and so of B) used as an annotation
+    {"k": "metaof", "m": "M1", "cs": [2, 3], "via": "base"},                                   # an ordinary class that metaclass inherits from (like an ABC)
     {"k": "any"},
 ]
 
@@ -50,7 +51,7 @@ def py_subelem(anc, x, y):
     if x["k"] == "any":
         return py_subelem(anc, cls(1), y)
     if x["k"] == "metaof":
-        return (y["k"] == "cls" and y["c"] == 1) or x == y
+        return (y["k"] == "cls" and y["c"] == 1) or x == y or (y["k"] == "metaof" and y["m"] == x["m"] and "via" in y and "via" not in x)
     if y["k"] == "metaof":
         return x["k"] == "cls" and x["c"] in y["cs"]
     if x["k"] == "cls" and y["k"] == "cls":
